@@ -7,6 +7,7 @@ import J1939.Model.Ecu
 import J1939.Model.Dm1
 import J1939.Model.Dll21
 import J1939.Model.Ca
+import J1939.Model.Dll22
 import J1939.Model.Listener
 namespace J1939.Driver
 open J1939 J1939.Gen
@@ -40,12 +41,53 @@ structure D21St where
   acc : List Nat := []               -- destinations a listener / CA accepts
 deriving Inhabited
 
+structure D22St where
+  cfg : Dll22.Cfg := {}
+  st  : Dll22.St := {}
+  acc : List Nat := []
+deriving Inhabited
+
 structure St where
   now  : Nat := 1000000000          -- virtual clock (µs); starts at 1000 s so that deadlines are never 0
   ecus : List EcuSt := []
   d21  : List D21St := []
   cas  : List Ca.Ca := []
+  d22  : List D22St := []
 deriving Inhabited
+
+def showOptNat : Option Nat → String
+  | none => "-"
+  | some v => toString v
+
+def showOptInt : Option Int → String
+  | none => "-"
+  | some v => toString v
+
+def showOut22 : Dll22.Out → String
+  | .tx f => s!"tx {f.id} {if f.ext then 1 else 0} {showList f.data}"
+  | .notify prio pgn sa dest data => s!"notify {prio} {pgn} {sa} {dest} {showList data}"
+  | .claim sa data => s!"claim {sa} {showList data}"
+  | .request sa dest data => s!"request {sa} {dest} {showList data}"
+  | .wake => "wake"
+
+def showBools (l : List Bool) : String := String.ofList (l.map fun b => if b then '1' else '0')
+
+def dumpD22 (s : Dll22.St) : String :=
+  let r := ",".intercalate (s.rcv.map fun (k, b) =>
+    s!"{k}:{b.pgn}:{b.session}:{b.messageSize}:{b.numSegments}:{b.nextPacket}:{showOptNat b.ctsBorder}:{showOptNat b.maxRec}:{b.deadline}:{b.src}:{b.dest}:{showList b.data}")
+  let t := ",".intercalate (s.snd.map fun (k, b) =>
+    s!"{k}:{b.pgn}:{b.priority}:{b.session}:{b.messageSize}:{b.numSegments}:{b.state}:{b.deadline}:{b.src}:{b.dest}:{b.next}:{showOptInt b.waitOn}:{b.data.length}")
+  let m := ",".intercalate (s.mpg.map fun (k, b) =>
+    s!"{k}:{b.deadline}:{b.fill}:" ++ "/".intercalate (b.cpgs.map fun c => s!"{c.priority}.{c.cpgn}.{showList c.data}"))
+  s!"rcv {r} | snd {t} | mpg {m} | pools {showBools s.rtsPool} {showBools s.bamPool}"
+
+def withD22 (st : St) (i : Nat) (f : D22St → D22St × List String) : St × List String :=
+  match st.d22[i]? with
+  | none => (st, ["bad-stack"])
+  | some e => let (e', out) := f e; ({ st with d22 := st.d22.set i e' }, out)
+
+def resLines22 (r : Dll22.Res) : List String :=
+  r.outs.map showOut22 ++ (match r.err with | some e => [s!"exc {e.name}"] | none => [])
 
 def showFrame (f : Frame) : String := s!"tx {f.id} {showList f.data}"
 
@@ -60,14 +102,6 @@ def showOut21 : Dll21.Out → String
   | .claim sa data => s!"claim {sa} {showList data}"
   | .request sa dest data => s!"request {sa} {dest} {showList data}"
   | .wake => "wake"
-
-def showOptNat : Option Nat → String
-  | none => "-"
-  | some v => toString v
-
-def showOptInt : Option Int → String
-  | none => "-"
-  | some v => toString v
 
 def dumpD21 (s : Dll21.St) : String :=
   let r := ",".intercalate (s.rcv.map fun (k, b) =>
@@ -286,6 +320,34 @@ def step (st : St) (line : String) : St × List String :=
     match a.toNat?, b.toNat?, c.toNat?, d.toNat? with
     | some a, some b, some c, some d => (st, [if Listener.forwards (a != 0) (b != 0) (c != 0) (d != 0) then "forward" else "drop"])
     | _, _, _, _ => (st, ["bad-args"])
+  | ["d22.new", mx, cmdt, bam, acc] =>
+    match mx.toNat?, bam.toNat?, parseList acc with
+    | some mx, some bam, some acc =>
+      let cfg : Dll22.Cfg := { maxCmdt := mx, cmdtInterval := cmdt.toNat?, bamInterval := bam }
+      ({ st with d22 := st.d22 ++ [{ cfg, acc }] }, [])
+    | _, _, _ => (st, ["bad-args"])
+  | ["d22.send", i, dp, pf, ps, prio, sa, data, tl, ff] =>
+    match i.toNat?, dp.toNat?, pf.toNat?, ps.toNat?, prio.toNat?, sa.toNat?, parseList data, tl.toNat?, ff.toNat? with
+    | some i, some dp, some pf, some ps, some prio, some sa, some data, some tl, some ff => withD22 st i fun e =>
+        let (r, ret) := Dll22.sendPgn e.cfg e.st st.now dp pf ps prio sa data tl ff
+        ({ e with st := r.st }, resLines22 r ++ (if r.err.isNone then [if ret then "ret True" else "ret False"] else []))
+    | _, _, _, _, _, _, _, _, _ => (st, ["bad-args"])
+  | ["d22.rx", i, cid, data] =>
+    match i.toNat?, cid.toNat?, parseList data with
+    | some i, some cid, some data => withD22 st i fun e =>
+        let r := Dll22.notify e.cfg e.st st.now (fun d => e.acc.contains d) cid data
+        ({ e with st := r.st }, resLines22 r)
+    | _, _, _ => (st, ["bad-args"])
+  | ["d22.tick", i] =>
+    match i.toNat? with
+    | some i => withD22 st i fun e =>
+        let (r, nw) := Dll22.tick e.cfg e.st st.now
+        ({ e with st := r.st }, resLines22 r ++ (if r.err.isNone then [s!"wakeup {(nw : Int) - st.now}"] else []))
+    | none => (st, ["bad-args"])
+  | ["d22.dump", i] =>
+    match i.toNat? with
+    | some i => withD22 st i fun e => (e, [dumpD22 e.st])
+    | none => (st, ["bad-args"])
   | ["dm1.send", pgn, lamps, flat] =>
     match pgn.toNat?, parseList lamps, parseList flat with
     | some pgn, some lamps, some flat =>
